@@ -43,7 +43,7 @@ ASSUMPTIONS = [
     "one crash point per execution; sources' own aclose never raises",
 ]
 PROBES = ("close_midway", "close_unstarted_handle", "athrow", "source_raises", "callable_raises",
-          "tee_history", "groupby_history", "aclose_suspends", "aggregation", "unstarted_source_closed")
+          "tee_history", "groupby_history", "handle_source_raises", "aclose_suspends", "aggregation", "unstarted_source_closed")
 
 NAMES = tuple(n for n in TOOL_NAMES if n != "tee") + AGG_NAMES
 HANDLES = ("chain",)
@@ -108,7 +108,11 @@ def fault_lists(prep, faults):
             out.append([3, k, faults.draw(len(FAULT_TYPES))])
     else:
         for p in range(len(prep.ops) + 1):
-            out.append([p, faults.draw(2)])
+            out.append([p, faults.draw(2), 0, 0])
+        # the source raises at its k-th pull somewhere inside the history
+        nkey = len(prep.src.items) if getattr(prep, "key", None) is not None else 0
+        for k in range(len(prep.src.items) + 1 + nkey):
+            out.append([len(prep.ops), faults.draw(2), k + 1, faults.draw(len(FAULT_TYPES))])
     return out
 
 
@@ -306,8 +310,10 @@ def src_closed_early(src):
     return src.n_aclose > 0
 
 
-async def consumer_tee(prep, run, cut, via_handle, res):
+async def consumer_tee(prep, run, cut, via_handle, res, fault=None):
     world = run.world
+    if fault is not None:
+        world.set_fault(*fault)
     src = make_async_source(world, prep.src)
     run.srcs = [src]
     handle = lib().tee(src.obj, prep.n)
@@ -330,6 +336,12 @@ async def consumer_tee(prep, run, cut, via_handle, res):
                     await children[c].__anext__()
                 except StopAsyncIteration:
                     done[c] = True
+                except BaseException as err:
+                    if fault is None or err is not fault[2]:
+                        raise
+                    # the child raised what its source raised: that child is finished, its siblings are not
+                    done[c] = True
+                    res["source_raised"] = True
                 check("next")
             else:
                 await children[c].aclose()
@@ -353,8 +365,10 @@ async def consumer_tee(prep, run, cut, via_handle, res):
 
 
 # --------------------------------------------------------------------------- groupby histories
-async def consumer_groupby(prep, run, cut, res):
+async def consumer_groupby(prep, run, cut, res, fault=None):
     world = run.world
+    if fault is not None:
+        world.set_fault(*fault)
     src = make_async_source(world, prep.src)
     run.srcs = [src]
     run.fns, fobj = [], None
@@ -375,12 +389,24 @@ async def consumer_groupby(prep, run, cut, res):
                     groups.append(grp)
                 except StopAsyncIteration:
                     res["exhausted"] = True
+                except BaseException as err:
+                    if fault is None or err is not fault[2]:
+                        raise
+                    # the groupby iterator itself raised: its source is released by now
+                    res["source_raised"] = True
+                    if src.must_release and not src.released:
+                        problems.append(("groupby_source_not_released", "raise", cut))
+                    break
             else:
                 grp = groups[-1 - (i % len(groups))]
                 try:
                     await grp.__anext__()
                 except StopAsyncIteration:
                     pass
+                except BaseException as err:
+                    if fault is None or err is not fault[2]:
+                        raise
+                    res["source_raised"] = True
         res["live_group"] = bool(groups)
         try:
             await gb.aclose()
@@ -400,18 +426,28 @@ async def consumer_groupby(prep, run, cut, res):
 def run_handle(prep, st, ctx, out, sim):
     cut = st.faults.draw(len(prep.ops) + 1)
     via = st.faults.draw(2)
+    nsrc = len(prep.src.items) + 1
+    nkey = len(prep.src.items) if getattr(prep, "key", None) is not None else 0
+    fk = st.faults.draw(nsrc + nkey + 1)
+    ft = st.faults.draw(len(FAULT_TYPES))
+    fault = None
+    if fk > nsrc:
+        # the key function of groupby raises at its k-th call
+        fault = (prep.key.name, fk - nsrc - 1, make_fault(ft, "keyfault@%d" % (fk - nsrc - 1)))
+    elif fk:
+        fault = (prep.src.name, fk - 1, make_fault(ft, "fault@%d" % (fk - 1)))
     world = World(sim, own_log=True)
     run = Run(world)
     res = {"problems": [], "finished": False, "exc": None}
     if prep.kind == "tee":
-        sim.spawn(consumer_tee(prep, run, cut, via, res))
+        sim.spawn(consumer_tee(prep, run, cut, via, res, fault))
     else:
-        sim.spawn(consumer_groupby(prep, run, cut, res))
+        sim.spawn(consumer_groupby(prep, run, cut, res, fault))
     run_sim(sim)
     if sim.deadlock:
         out.violate("C04.deadlock", (prep.kind,), {})
     if sim.capped or sim.deadlock:
-        return run, cut, via
+        return run, cut, (via, fk, ft)
     if not res["finished"]:
         out.violate("C04.did_not_finish", (prep.kind,), {})
     if res["exc"] is not None:
@@ -423,14 +459,18 @@ def run_handle(prep, st, ctx, out, sim):
         else:
             out.violate("C04." + prob[0], (prep.kind, prob[1]),
                         {"ops": prep.ops[:cut], "via_handle": via, "detail": repr(prob),
+                         "party_raises_at_use": (fk - 1) if fk else None,
                          "source": prep.src.describe(), "n": getattr(prep, "n", None)})
         break
     out.nontrivial = bool(run.srcs and run.srcs[0].must_release)
     out.probes["tee_history" if prep.kind == "tee" else "groupby_history"] = 1
     out.faults["close_at_position"] = 1
+    if res.get("source_raised"):
+        out.faults["party_raises"] = 1
+        out.probes["handle_source_raises"] = 1
     if cut == 0:
         out.probes["close_unstarted_handle"] = 1
-    return run, cut, via
+    return run, cut, (via, fk, ft)
 
 
 def run_prepared(prep, st, ctx):
@@ -447,12 +487,13 @@ def run_prepared(prep, st, ctx):
                           "sources_after": {s.name: {"released": s.released, "aclose": s.n_aclose,
                                                      "exhausted": s.exhausted} for s in run.srcs}}
     else:
-        run, cut, via = run_handle(prep, st, ctx, out, sim)
+        run, cut, (via, fk, ft) = run_handle(prep, st, ctx, out, sim)
         out.shape = (prep.kind, prep.src.flavour, tuple(i.key for i in prep.src.items), tuple(prep.ops[:cut]),
-                     via, getattr(prep, "n", 0))
+                     via, fk, ft, getattr(prep, "n", 0))
         if ctx.want_sample:
             out.sample = {"config": prep.cfg.describe(), "handle": prep.kind, "source": prep.src.describe(),
                           "ops": [list(o) for o in prep.ops[:cut]], "then": "handle.aclose" if via else "close children",
+                          "party_raises_at_use": (fk - 1) if fk else None, "fault_type": FAULT_TYPES[ft].__name__ if fk else None,
                           "children": getattr(prep, "n", None)}
     if ctx.want_log:
         out.log = [run.log, sim.trace]
